@@ -330,6 +330,11 @@ def call_emission_rule(ctx: Ctx, rid: str) -> None:
             if entry == "visit_Call":
                 tree = reparse(sk, entry, kind)
                 if tree is not None:
+                    # ... and each one is passed whenever its condition holds, in both keyword forms
+                    have = {c.arg for c in ast.walk(tree) if isinstance(c, ast.keyword) and c.arg} | {k_.value for c in ast.walk(tree) if isinstance(c, ast.Dict) for k_ in c.keys if isinstance(k_, ast.Constant)}
+                    for flag, kwn in (("forward_caller", "caller"), ("frame.loop_frame", "_loop_vars"), ("frame.block_frame", "_block_vars")):
+                        if p.decisions.get(flag) is True and kwn not in have:
+                            bad_extra.setdefault(kwn + " (missing)", sk.text.strip()[:160])
                     for c in ast.walk(tree):
                         if isinstance(c, ast.keyword) and c.arg in extras and not (isinstance(c.value, ast.Name) and c.value.id == c.arg):
                             bad_extra.setdefault(c.arg, sk.text.strip()[:160])
